@@ -670,3 +670,53 @@ Definition read_rejects (bytes : list N) : bool :=
 Definition case_ok (nq : bool) (qs : list quad) (bytes : list N) : bool :=
   wf_quads qs && (if nq then write_ok qs bytes else nt_write_ok qs bytes) && read_ok bytes qs
   && Nat.eqb (count 10 bytes) (length qs) && Nat.eqb (count 13 bytes) 0.
+
+(* ------------------------------------------------------------------------------------------ *)
+(** * Part 4: the other public entry points of the writer (widened harness)                    *)
+(* ------------------------------------------------------------------------------------------ *)
+
+(* a serialiser keeps its target between calls (`serialize_quads` returns `&mut Self`): the state
+   is the bytes written so far, every call appends the serialisation of its source *)
+Definition nq_write_calls (calls : list (list quad)) : list N :=
+  fold_left (fun acc qs => acc ++ nq_write qs) calls [].
+Definition nt_write_calls (calls : list (list triple)) : list N :=
+  fold_left (fun acc ts => acc ++ nt_write ts) calls [].
+Definition write_calls_ok (nq : bool) (calls : list (list quad)) (bytes : list N) : bool :=
+  bytes_eqb (if nq then nq_write_calls calls else nt_write_calls (map nt_of calls)) bytes.
+(* a dataset written in several calls: the whole case, plus the call-by-call writer *)
+Definition case_calls_ok (nq : bool) (calls : list (list quad)) (bytes : list N) : bool :=
+  case_ok nq (concat calls) bytes && write_calls_ok nq calls bytes.
+
+(* the public functions `write_term` / `write_triple` called on their own *)
+Definition write_term_ok (t : term) (bytes : list N) : bool := bytes_eqb (write_term t) bytes.
+Definition terms_ok (l : list (term * list N)) : bool :=
+  forallb (fun p => write_term_ok (fst p) (snd p)) l.
+Definition write_triple_ok (s p o : term) (bytes : list N) : bool :=
+  bytes_eqb (write_triple s p o) bytes.
+(* a statement composed by hand from write_triple, " ", write_term, ".\n" *)
+Definition compose_quad (q : quad) : list N :=
+  let '(s, p, o, g) := q in
+  write_triple s p o ++ match g with None => [] | Some t => [32] ++ write_term t end ++ [46; 10].
+
+(* generalised RDF (any kind of term at any position, variables): what NqSerializer writes when
+   it is handed such quads (the `Variable` arm of write_term) and what the generalised parser
+   (gnq) reads.  VARNAME of SPARQL is a subset of PN_CHARS+ *)
+Definition var_ok (s : str) : bool := negb (is_nil s) && forallb pn_chars s && scalar_str s.
+Fixpoint gwf (t : term) : bool :=
+  match t with
+  | Iri s => iri_ok s
+  | Bnode l => label_ok l
+  | LitDt lex dt => scalar_str lex && iri_ok dt
+  | LitLang lex tag => scalar_str lex && langtag_ok tag
+  | Triple s p o => gwf s && gwf p && gwf o
+  | Var s => var_ok s
+  end.
+Definition gwf_quad (q : quad) : bool :=
+  let '(s, p, o, g) := q in
+  gwf s && gwf p && gwf o && match g with None => true | Some t => gwf t end.
+Definition gwf_quads (qs : list quad) : bool := forallb gwf_quad qs.
+(* one generalised case: well-formed in the generalised sense, same bytes, one LF per quad, no CR
+   (the reading back is checked by the oracle with sophia's generalised parser) *)
+Definition gen_case_ok (nq : bool) (qs : list quad) (bytes : list N) : bool :=
+  gwf_quads qs && (if nq then write_ok qs bytes else nt_write_ok qs bytes)
+  && Nat.eqb (count 10 bytes) (length qs) && Nat.eqb (count 13 bytes) 0.
